@@ -31,6 +31,7 @@ CONSTANTS
   LVals = {{{lvals}}}
   MaxBatch = {max_batch}
   MaxSamples = {max_samples}
+  OwnThreshold = {own}
 VIEW view
 INVARIANT TypeOK
 INVARIANT Sorted
@@ -322,6 +323,7 @@ CONSTANTS
   LVals = {{{lvals}}}
   MaxBatch = 0
   MaxSamples = 0
+  OwnThreshold = TRUE
 CHECK_DEADLOCK FALSE
 """
 
@@ -449,7 +451,7 @@ def main(tier: str) -> int:
                 cfg.write_text(CFG.format(
                     strict=_tf(strict), replace_all=_tf(replace_all),
                     lvals=",".join(str(i) for i in range(1, bounds["lvals"] + 1)),
-                    max_batch=bounds["max_batch"], max_samples=bounds["max_samples"]))
+                    max_batch=bounds["max_batch"], max_samples=bounds["max_samples"], own="TRUE"))
                 res = run_tlc("OrderedSamples", str(cfg), metadir=scratch / f"m_{strict}_{replace_all}",
                               collect_prefix="EDGE", timeout=3000)
                 require_ok(res, f"OrderedSamples {mode}")
@@ -478,10 +480,19 @@ def main(tier: str) -> int:
                     samples.append({"kind": "random trace (first 3 events)", "mode": mode,
                                     "events": traces[0][:3]})
         r_ok, r_calls, r_states, r_trans = real_store_traces(scratch, tier, seed, v)
+        # prediction only: with thresholds that are not the likelihood of one of the store's own live samples
+        # (what the sampler does to its non-main store) the specification itself shows which clause goes
+        hz = scratch / "os_hazard.cfg"
+        hz.write_text(CFG.format(strict="FALSE", replace_all="FALSE", lvals="1,2,3", max_batch=2, max_samples=5,
+                                 own="FALSE").replace("ACTION_CONSTRAINT ExportEdge\n", ""))
+        hres = run_tlc("OrderedSamples", str(hz), metadir=scratch / "m_hazard", timeout=600)
+        hazard = hres.error.replace("Error: ", "") if not hres.ok else "none"
+        v.note(f"OrderedSamples.tla with foreign thresholds (OwnThreshold = FALSE): {hazard}")
     v.coverage = {
         "states": states + r_states, "transitions": trans + r_trans,
         "traces_validated_against_impl": n_traces_ok + r_ok,
         "real_ins_store_traces": r_ok, "real_ins_store_calls": r_calls,
+        "predicted_hazard_with_foreign_thresholds": hazard,
         "edges_replayed_on_real_object": stats["edges"],
         "instantiations": insts,
         "distinct_edge_kinds": len(stats["kinds"]),
